@@ -59,7 +59,16 @@ var c19Files = map[string]string{
 	"incemptyname.twig": "a{% include nosuchvar %}b",
 	"extdir.twig":       "{% extends 'pages' %}{% block a %}{% endblock %}",
 	"embdir.twig":       "a{% embed 'pages/' %}{% endembed %}b",
+	// more output than any in-memory buffer of a safe execution would hold, then a failure
+	"hugert.twig":  "{{ huge }}{{ huge }}{{ nofunc() }}",
+	"hugeok.twig":  "{{ huge }}{{ huge }}",
+	"hugeinc.twig": "{{ huge }}{% include 'nofile.twig' %}",
+	// reached through symbolic links (created by the setup below)
+	"inclink.twig": "a{% include 'link.twig' %}{% include 'linkbad.twig' %}b",
 }
+
+// symbolic links in the loader's root: name -> target
+var c19Links = map[string]string{"link.twig": "valid.twig", "linkbad.twig": "syntax.twig", "linkrt.twig": "rt.twig", "dangling.twig": "nosuchtarget.twig", "linkdir": "pages", "pages/uplink.twig": "../valid.twig"}
 
 func c19Setup() *c19Envs {
 	e := &c19Envs{}
@@ -72,6 +81,10 @@ func c19Setup() *c19Envs {
 		os.MkdirAll(filepath.Dir(filepath.Join(e.dir, n)), 0o755)
 		os.WriteFile(filepath.Join(e.dir, n), []byte(s), 0o644)
 	}
+	for n, target := range c19Links {
+		os.Remove(filepath.Join(e.dir, n))
+		os.Symlink(target, filepath.Join(e.dir, n))
+	}
 	e.str = stick.New(nil)
 	addStdCallbacks(e.str)
 	e.mem = stick.New(&stick.MemoryLoader{Templates: c19Files})
@@ -82,11 +95,16 @@ func c19Setup() *c19Envs {
 	return e
 }
 
-var c19Ctx = map[string]stick.Value{"x": 1, "y": "v", "z": []stick.Value{1, 2}}
+var c19Ctx = map[string]stick.Value{"x": 1, "y": "v", "z": []stick.Value{1, 2}, "huge": strings.Repeat("0123456789abcdef", 80000)}
 
 func c19Exec(env *stick.Env, name string) error {
 	var buf bytes.Buffer
 	return env.Execute(name, &buf, c19Ctx)
+}
+
+func c19ExecSafe(env *stick.Env, name string) error {
+	var buf bytes.Buffer
+	return env.ExecuteSafe(name, &buf, c19Ctx)
 }
 
 func c19Ops() []c19Op {
@@ -99,11 +117,18 @@ func c19Ops() []c19Op {
 	}
 	sort.Strings(names)
 	names = append(names, "nofile.twig", "pages", "pages/", "", ".", "pages/nofile.twig", "valid.twig/x")
+	var links []string
+	for n := range c19Links {
+		links = append(links, n)
+	}
+	sort.Strings(links)
+	names = append(names, links...)
 	for _, n := range names {
 		n := n
 		add("exec/mem/"+n, func(e *c19Envs) error { return c19Exec(e.mem, n) })
 		add("exec/fs/"+n, func(e *c19Envs) error { return c19Exec(e.fs, n) })
 		add("parse/fs/"+n, func(e *c19Envs) error { _, err := e.fs.Parse(n); return err })
+		add("safe/fs/"+n, func(e *c19Envs) error { return c19ExecSafe(e.fs, n) })
 	}
 	for _, n := range []string{"valid.twig", "child.twig", "syntax.twig", "incbad.twig", "nofile.twig", "lexerr.twig"} {
 		n := n
